@@ -886,6 +886,30 @@ def r_dynw(text, ctx):
     return text
 
 
+def r_enumerate(text, ctx):
+    """R-enumerate: `for (i, X) in C.iter().enumerate() { BODY }`  ->  `let mut i: usize = 0; for X in iteK: C.iter() { BODY; i += 1; }`
+    (desugaring of Iterator::enumerate; refuses bodies with continue / break / return, which would skip the increment)."""
+    n = 0
+    while True:
+        m = re.search(r"for \(([a-z_]+), ([a-z_]+)\) in ([A-Za-z_][A-Za-z0-9_\.]*)\.iter\(\)\.enumerate\(\) \{", text)
+        if not m:
+            break
+        open_off = m.end() - 1
+        toks = rl.code_toks(rl.lex(text[open_off:]))
+        close = rl.match_close(toks, 0)
+        body = text[open_off + 1: open_off + toks[close].start]
+        if re.search(r"\b(return|break|continue)\b", body):
+            raise Unsupported(ctx.key + ": R-enumerate: loop body has non-local control flow")
+        n += 1
+        i, x, coll = m.group(1), m.group(2), m.group(3)
+        new = "let mut %s: usize = 0;\n        for %s in ite%d: %s.iter() {%s    %s += 1;\n        }" % (i, x, n, coll, body, i)
+        ctx.app("R-enumerate", rl.norm_ws(m.group(0)), "let mut %s: usize = 0; for %s in ite%d: %s.iter() { ..; %s += 1; }" % (i, x, n, coll, i))
+        text = text[:m.start()] + new + text[open_off + toks[close].end:]
+    if n == 0:
+        raise LostAnchor(ctx.key + ": R-enumerate: no `for (i, x) in c.iter().enumerate()` loop")
+    return text
+
+
 def r_retself(text, ctx):
     """R-retself: `-> &mut Self { ...; self }`  ->  `{ ...; }`.  The chaining return value (an alias of the receiver) is dropped."""
     header, body = fn_split(text)
